@@ -382,6 +382,11 @@ theorem inv_step {Tok : Type} [DecidableEq Tok] (C : Crypto Tok) (n : Node) (op 
     split
     · exact h
     · exact ⟨⟨h.tok.lt, h.tok.le, h.tok.shape⟩, h.wf⟩
+  | cache key values loc =>
+    simp only [Node.step, Node.cacheStore]
+    split
+    · exact ⟨⟨h.tok.lt, h.tok.le, h.tok.shape⟩, wf_addValues C _ _ _ _ _ h.wf⟩
+    · exact h
 
 theorem inv_run {Tok : Type} [DecidableEq Tok] (C : Crypto Tok) (ops : List (Op Tok)) (n : Node) (h : Inv n) :
     Inv (n.run C ops) := by
@@ -671,6 +676,9 @@ theorem secInv_step {Tok : Type} [DecidableEq Tok] (C : Crypto Tok) (n : Node) (
   | ping nid =>
     simp only [Node.step, Node.pingReq]
     split <;> exact h
+  | cache key values loc =>
+    simp only [Node.step, Node.cacheStore]
+    split <;> exact h
 
 theorem secInv_run {Tok : Type} [DecidableEq Tok] (C : Crypto Tok) (ops : List (Op Tok)) (n : Node) (h : SecInv n) :
     SecInv (n.run C ops) := by
@@ -688,5 +696,237 @@ theorem pickBy_some_of_mem (better : Nat → Nat → Bool) (l : List (Nat × Nat
   cases l with
   | nil => simp at hx
   | cons a t => exact ⟨_, rfl⟩
+
+/-! ### the value_maintenance timer -/
+
+/-- a maintenance run is always less than one interval away -/
+def CleanInv (n : Node) : Prop := n.now < n.nextClean ∧ n.nextClean ≤ n.now + Gen.valueMaintenanceInterval
+
+theorem value_interval_pos : 0 < Gen.valueMaintenanceInterval := by decide
+
+theorem cleanInv_init (t0 : Nat) : CleanInv (Node.init t0) := by
+  have := value_interval_pos
+  simp only [CleanInv, Node.init]; omega
+
+theorem cleanInv_tick1 (n : Node) (h : CleanInv n) : CleanInv n.tick1 := by
+  have hp := value_interval_pos
+  obtain ⟨h1, h2⟩ := h
+  unfold Node.tick1 Node.fireClean
+  have hr : ∀ m : Node, m.fireRotate.now = m.now ∧ m.fireRotate.nextClean = m.nextClean := by
+    intro m; unfold Node.fireRotate; split <;> simp [Node.rotate]
+  obtain ⟨e1, e2⟩ := hr { n with now := n.now + 1 }
+  simp only at e1 e2
+  split
+  · rename_i hc
+    have hc' : ({ n with now := n.now + 1 } : Node).fireRotate.now = ({ n with now := n.now + 1 } : Node).fireRotate.nextClean := by
+      simpa using hc
+    simp only [CleanInv, Node.clean]
+    rw [e1, e2] at hc'
+    rw [e1, e2]
+    omega
+  · rename_i hc
+    have hc' : ({ n with now := n.now + 1 } : Node).fireRotate.now ≠ ({ n with now := n.now + 1 } : Node).fireRotate.nextClean := by
+      simpa using hc
+    simp only [CleanInv]
+    rw [e1, e2] at hc'
+    rw [e1, e2]
+    omega
+
+theorem cleanInv_adv (dt : Nat) (n : Node) (h : CleanInv n) : CleanInv (n.adv dt) := by
+  induction dt generalizing n with
+  | zero => exact h
+  | succ k ih => exact ih _ (cleanInv_tick1 n h)
+
+theorem cleanInv_step {Tok : Type} [DecidableEq Tok] (C : Crypto Tok) (n : Node) (op : Op Tok) (h : CleanInv n) :
+    CleanInv (n.step C op) := by
+  cases op with
+  | adv dt => exact cleanInv_adv dt n h
+  | rotate => exact h
+  | clean => exact h
+  | find w nid t o f =>
+    simp only [Node.step, Node.findReq]
+    split <;> exact h
+  | store r =>
+    simp only [Node.step, Node.storeReq]
+    split
+    · exact h
+    · split <;> exact h
+  | storePeer w tok t =>
+    simp only [Node.step, Node.storePeerReq]
+    split <;> exact h
+  | ping nid =>
+    simp only [Node.step, Node.pingReq]
+    split <;> exact h
+  | cache key values loc =>
+    simp only [Node.step, Node.cacheStore]
+    split <;> exact h
+
+theorem cleanInv_run {Tok : Type} [DecidableEq Tok] (C : Crypto Tok) (ops : List (Op Tok)) (n : Node) (h : CleanInv n) :
+    CleanInv (n.run C ops) := by
+  induction ops generalizing n with
+  | nil => exact h
+  | cons op ops ih => exact ih _ (cleanInv_step C n op h)
+
+/-! ### provenance of stored values -/
+
+/-- what `add_value` may put into a storage: the bytes are within the size limit and either a plain entry stored under its
+    own hash with version 0, or a signed entry that verifies, stored under the hash of its (canonical) key with the signed
+    version -/
+def Stored {Tok : Type} (C : Crypto Tok) (v : Value) : Prop :=
+  v.data = v.src.uid ∧ v.src.len ≤ Gen.maxEntrySize ∧
+  ((∃ d, v.src.wire = .str d ∧ v.id = v.src.hid ∧ v.version = 0) ∨
+   (∃ d ver pk pkh sig, v.src.wire = .signed d ver pk pkh sig ∧ C.verify pk d ver sig = true ∧ v.id = pkh ∧
+      v.version = ver))
+
+def Storage.AllStored {Tok : Type} (C : Crypto Tok) (s : Storage) : Prop := ∀ k, ∀ v ∈ s.getItems k, Stored C v
+
+theorem mem_putItems (key : Nat) (nv : Value) (l : Items) : ∀ v ∈ putItems key nv l, v = nv ∨ v ∈ l := by
+  intro v hv
+  unfold putItems at hv
+  split at hv
+  · split at hv
+    · rcases List.mem_cons.mp ((mem_sortOwn ..).mp hv) with h | h
+      · exact Or.inl h
+      · exact Or.inr (List.mem_of_mem_eraseP h)
+    · exact Or.inr hv
+  · rcases List.mem_cons.mp ((mem_sortOwn ..).mp hv) with h | h
+    · exact Or.inl h
+    · exact Or.inr h
+
+theorem allStored_put {Tok : Type} (C : Crypto Tok) (s : Storage) (key : Nat) (nv : Value) (h : s.AllStored C)
+    (hn : Stored C nv) : (s.put key nv).AllStored C := by
+  intro k v hv
+  unfold Storage.put at hv
+  rw [getItems_setItems] at hv
+  split at hv
+  · rcases mem_putItems key nv _ v hv with rfl | h1
+    · exact hn
+    · exact h key v h1
+  · exact h k v hv
+
+theorem allStored_clean {Tok : Type} (C : Crypto Tok) (s : Storage) (now : Nat) (h : s.AllStored C) :
+    (s.clean now).AllStored C := by
+  intro k v hv
+  rw [getItems_clean] at hv
+  exact h k v ((cleanItems_sublist now _).subset hv)
+
+theorem allStored_addValue {Tok : Type} (C : Crypto Tok) (now key : Nat) (b : Blob) (maxAge : Nat) (s s' : Storage)
+    (h : s.AllStored C) (hb : b.len ≤ Gen.maxEntrySize) (he : addValue C now key b maxAge s = some s') :
+    s'.AllStored C := by
+  unfold addValue unserialize at he
+  cases hw : b.wire with
+  | str d =>
+    simp only [hw, Option.some.injEq] at he
+    rw [← he]
+    exact allStored_put C s key _ h ⟨rfl, hb, Or.inl ⟨d, hw, rfl, rfl⟩⟩
+  | signed d v pk pkh sig =>
+    by_cases hv : C.verify pk d v sig = true
+    · simp only [hw, hv, if_true, Option.some.injEq] at he
+      rw [← he]
+      exact allStored_put C s key _ h ⟨rfl, hb, Or.inr ⟨d, v, pk, pkh, sig, hw, hv, rfl, rfl⟩⟩
+    · simp only [hw, hv, Option.some.injEq] at he
+      simp at he
+      rw [← he]; exact h
+  | unknown => simp [hw] at he; rw [← he]; exact h
+  | malformed => simp [hw] at he
+
+theorem allStored_addValues {Tok : Type} (C : Crypto Tok) (now key maxAge : Nat) (bs : List Blob) (s : Storage)
+    (h : s.AllStored C) (hb : ∀ b ∈ bs, b.len ≤ Gen.maxEntrySize) :
+    (addValues C now key maxAge bs s).1.AllStored C := by
+  induction bs generalizing s with
+  | nil => simpa [addValues] using h
+  | cons b bs ih =>
+    simp only [addValues]
+    split
+    · exact h
+    · rename_i s' he
+      exact ih s' (allStored_addValue C now key b maxAge s s' h (hb b (List.mem_cons_self ..)) he)
+        (fun x hx => hb x (List.mem_cons_of_mem _ hx))
+
+/-- the size guard of `on_store_request`, when it does not fire -/
+theorem guards_pass_sizes {Tok : Type} [DecidableEq Tok] (C : Crypto Tok) (n : Node) (r : StoreReq Tok)
+    (hg : ¬ Gen.storeGuards.any (fun g => g.fires C n r) = true) : ∀ v ∈ r.values, v.len ≤ Gen.maxEntrySize := by
+  have hall : ∀ g ∈ Gen.storeGuards, g.fires C n r = false := by
+    intro g hgm
+    cases hf : g.fires C n r with
+    | false => rfl
+    | true => exact absurd (List.any_eq_true.mpr ⟨g, hgm, hf⟩) hg
+  have hsz := hall (.sizeLimit .gt Gen.maxEntrySize) (by decide)
+  simp only [Guard.fires, Cmp.eval] at hsz
+  intro v hv
+  have := List.any_eq_false.mp hsz v hv
+  simp only [decide_eq_true_eq] at this
+  omega
+
+/-- what `store_on_nodes` keeps for the local store is within the size limit -/
+theorem keepLocal_sizes (vs : List Blob) : ∀ v ∈ keepLocal vs, v.len ≤ Gen.maxEntrySize := by
+  intro v hv
+  unfold keepLocal at hv
+  simp only [Gen.localKeep, Gen.localCap] at hv
+  have := List.mem_of_mem_take hv
+  have := (List.mem_filter.mp this).2
+  simpa [Cmp.eval] using this
+
+theorem allStored_step {Tok : Type} [DecidableEq Tok] (C : Crypto Tok) (n : Node) (op : Op Tok)
+    (h : n.store.AllStored C) : (n.step C op).store.AllStored C := by
+  cases op with
+  | adv dt =>
+    simp only [Node.step]
+    induction dt generalizing n with
+    | zero => exact h
+    | succ k ih =>
+      apply ih
+      unfold Node.tick1 Node.fireClean
+      have hr : ∀ m : Node, m.fireRotate.store = m.store := by
+        intro m; unfold Node.fireRotate; split <;> simp [Node.rotate]
+      split
+      · simp only [Node.clean]
+        rw [hr]
+        exact allStored_clean C _ _ h
+      · rw [hr]; exact h
+  | rotate => exact h
+  | clean => exact allStored_clean C _ _ h
+  | find w nid t o f =>
+    simp only [Node.step, Node.findReq]
+    split <;> exact h
+  | store r =>
+    simp only [Node.step, Node.storeReq]
+    split
+    · exact h
+    · split
+      · exact h
+      · rename_i hg
+        exact allStored_addValues C _ _ _ _ _ h (guards_pass_sizes C n r hg)
+  | storePeer w tok t =>
+    simp only [Node.step, Node.storePeerReq]
+    split <;> exact h
+  | ping nid =>
+    simp only [Node.step, Node.pingReq]
+    split <;> exact h
+  | cache key values loc =>
+    simp only [Node.step, Node.cacheStore]
+    split
+    · exact allStored_addValues C _ _ _ _ _ h
+        (fun b hb => keepLocal_sizes values b (List.mem_reverse.mp hb))
+    · exact h
+
+theorem allStored_run {Tok : Type} [DecidableEq Tok] (C : Crypto Tok) (ops : List (Op Tok)) (n : Node)
+    (h : n.store.AllStored C) : (n.run C ops).store.AllStored C := by
+  induction ops generalizing n with
+  | nil => exact h
+  | cons op ops ih => exact ih _ (allStored_step C n op h)
+
+/-! ### versions never go down while values are added -/
+
+def VersionsKept (s s' : Storage) : Prop :=
+  ∀ k, ∀ v ∈ s.getItems k, ∃ v' ∈ s'.getItems k, v'.id = v.id ∧ v.version ≤ v'.version
+
+theorem versionsKept_refl (s : Storage) : VersionsKept s s := fun _ v hv => ⟨v, hv, rfl, Nat.le_refl _⟩
+
+theorem versionsKept_trans (a b c : Storage) (h1 : VersionsKept a b) (h2 : VersionsKept b c) : VersionsKept a c := by
+  intro k v hv
+  obtain ⟨v1, hv1, e1, l1⟩ := h1 k v hv
+  obtain ⟨v2, hv2, e2, l2⟩ := h2 k v1 hv1
+  exact ⟨v2, hv2, e2.trans e1, Nat.le_trans l1 l2⟩
 
 end Ipv8.C15
